@@ -314,6 +314,13 @@ func (its *PushPullHandler) pushOperations() errors.OrdaError {
 }
 
 func (its *PushPullHandler) processSubscribeOrCreate(code pushPullCase) errors.OrdaError {
+	if code == caseMatchKeyNotType { // the key is used by a datatype of another type
+		msg := fmt.Sprintf("%s is %s, not %s", its.Key, its.datatypeDoc.Type, its.gotPushPullPack.Type.String())
+		if its.gotOption.HasCreateBit() {
+			return errors.PushPullDuplicateKey.New(its.ctx.L(), msg)
+		}
+		return errors.PushPullNoDatatypeToSubscribe.New(its.ctx.L(), msg)
+	}
 	if its.gotOption.HasSubscribeBit() && its.gotOption.HasCreateBit() {
 		switch code {
 		case caseMatchNothing:
